@@ -155,7 +155,7 @@ reg(Spec('C08', ['c08:C08'],
          quick=[('MISUSE', 2500), ('DUPLEX', 800), ('UPGRADE', 500)],
          thorough=[('MISUSE', 60000), ('DUPLEX', 20000), ('UPGRADE', 10000)],
          overrides={'MISUSE': {'misuse_focus': [0, 0, 4, 4, 14, 1, 2], 'push': 0.2, 'ops_boost': {'push': 3}, 'aftermath': 0.4,
-                               'hdr_variety': 1.0, 'config_matrix': 0.4, 'misuse_focus': [0, 0, 4, 4, 14, 1, 2, 12, 12], 'poison_ok': True}},
+                               'hdr_variety': 1.0, 'config_matrix': 0.6, 'misuse_focus': [0, 0, 4, 4, 14, 1, 2, 12, 12, 12, 12], 'poison_ok': True}},
          rule=R_RUN + 'non-trivial = at least one ordering call (headers/data/end/push/prioritize/alt-svc) was refused' + R_DISTINCT))
 reg(Spec('C09', ['c09:C09'],
          quick=[('DUPLEX', 1200), ('RACE', 800), ('ADV', 2000), ('MISUSE', 600)],
@@ -185,7 +185,7 @@ reg(Spec('C23', ['c23:C23'],
 reg(Spec('C24', ['c24:C24'],
          quick=[('DUPLEX', 1500), ('RACE', 800), ('ADV', 2000), ('MISUSE', 500)],
          thorough=[('DUPLEX', 30000), ('RACE', 20000), ('ADV', 50000), ('MISUSE', 10000)],
-         overrides={'*': {'ops_boost': {'altsvc': 6, 'trailers': 2}, 'misuse': 0.2, 'misuse_focus': [0, 12, 12, 13, 10, 10], 'aftermath': 0.4,
+         overrides={'*': {'ops_boost': {'altsvc': 6, 'trailers': 2, 'push': 3}, 'push': 0.15, 'misuse': 0.2, 'misuse_focus': [0, 12, 12, 13, 10, 10], 'aftermath': 0.4,
                           'aftermath_fsm': True}},
          rule=R_RUN + 'non-trivial = an advertisement attempted by a client or on a half-closed/closed stream, or an ALTSVC frame delivered on a faulted direction' + R_DISTINCT))
 
